@@ -280,6 +280,26 @@ func slice(i *interpreter, x, lo, hi, max value) value {
 		Cap = cap(a)
 	}
 
+	// constant string, symbolic offset, constant length: bytes by table lookup
+	if xs, ok := x.(string); ok && lo != nil && hi != nil {
+		lsv, lok := lo.(*SV)
+		hsv, hok := hi.(*SV)
+		if lok && hok && lsv.K == hsv.K {
+			if d := i.tt.BinBV(OSub, hsv.T, lsv.T); d.IsConst() && d.Val <= 16 {
+				n := int(d.Val)
+				// bounds: 0 <= lo, lo+n <= len
+				i.boundsCheck(lsv, Len-n+1)
+				bs := strBytes(xs)
+				out := make([]value, n)
+				for k := 0; k < n; k++ {
+					idx := i.tt.BinBV(OAdd, lsv.T, i.tt.Const(lsv.T.S, uint64(k)))
+					out[k] = i.loadSymref(&symref{elems: bs, idx: idx})
+				}
+				return mkStr(out)
+			}
+		}
+	}
+
 	l := int64(0)
 	if lo != nil {
 		l = i.asInt(lo)
